@@ -20,7 +20,10 @@ pub struct Case {
     /// (block index 1-based, kind) or None
     pub bad: Option<(usize, Invalid)>,
     pub perm: Vec<usize>,
-    /// 0 none, 1 each block delivered twice in a row, 2 whole sequence delivered twice
+    /// 0 none, 1 each block delivered twice in a row, 2 whole sequence delivered twice,
+    /// 3 none, but the service thread is held at the gate inside `search_orphan_leader` (between
+    /// its read of the leader's status and its read of the pending-verification set) until the
+    /// verifier has finished with that leader
     pub dup: u8,
 }
 
@@ -32,13 +35,14 @@ pub fn meta(tier: Tier) -> Meta {
         assumptions: &[
             "world W-flat: constant difficulty (every fork is an equal-work-per-block race), Dummy PoW",
             "ground truth validity by construction; every valid block was fully verified as a tip by a forge node, every invalid variant was refused by it",
-            "production threads, OS scheduling (thread interleavings are not controlled in this family)",
+            "production threads, OS scheduling; one interleaving is forced by a gate: service thread between the two reads of search_orphan_leader vs. the verifier finishing the leader",
         ],
         bounds: json!({
             "tree_blocks_all_labellings": if tier.is_thorough() { 4 } else { 3 },
             "tree_blocks_all_valid": if tier.is_thorough() { 5 } else { 4 },
             "invalid_kinds": ["Dao(contextual)", "TwoCellbases(non-contextual)", "Unproposed(contextual)"],
             "duplicate_patterns": 3,
+            "gate_pattern": "trees of up to 3 blocks, every labelling and permutation: the service thread is held inside search_orphan_leader (between its two reads) until the verifier has finished the leader",
             "family_D": "dynamic-difficulty world, branches A (fast, 4x per-block difficulty in epoch 1) and B (slow): every topological interleaving of (a_len, b_len) in the listed shapes, plus B delivered in reverse (held as orphans)",
             "family_D_shapes": if tier.is_thorough() { json!([[3,8],[3,9],[4,8],[2,6]]) } else { json!([[3,8]]) },
         }),
@@ -60,9 +64,13 @@ fn cases(tier: Tier) -> Vec<Case> {
             }
             for bad in labellings {
                 for perm in permutations(n) {
-                    for dup in 0..3u8 {
+                    for dup in 0..4u8 {
                         // dup patterns only multiply the smaller trees (keeps the largest n affordable)
                         if dup > 0 && n == n_valid && n > n_lab {
+                            continue;
+                        }
+                        // the gate pattern: trees of up to 3 blocks
+                        if dup == 3 && n > 3 {
                             continue;
                         }
                         out.push(Case { pv: pv.clone(), bad, perm: perm.clone(), dup });
@@ -119,7 +127,7 @@ fn run_case(ctx: &Ctx, u: &mut TreeUniverse, case: &Case, idx: u64) -> Result<Re
     let m = materialise(u, case)?;
     let mut seq: Vec<usize> = vec![];
     match case.dup {
-        0 => seq.extend(case.perm.iter().cloned()),
+        0 | 3 => seq.extend(case.perm.iter().cloned()),
         1 => {
             for &i in &case.perm {
                 seq.push(i);
@@ -132,8 +140,16 @@ fn run_case(ctx: &Ctx, u: &mut TreeUniverse, case: &Case, idx: u64) -> Result<Re
         }
     }
     let cons = u.consensus.clone();
-    run_scenario(ctx, &cons, &m, &case.pv, &seq, case.dup == 1, "A", &json!({"family": "A", "case": case}), fp(case), idx)
+    if case.dup == 3 {
+        GATE_ON.store(true, std::sync::atomic::Ordering::SeqCst);
+    }
+    let r = run_scenario(ctx, &cons, &m, &case.pv, &seq, case.dup == 1, "A", &json!({"family": "A", "case": case}), fp(case), idx);
+    GATE_ON.store(false, std::sync::atomic::Ordering::SeqCst);
+    ckb_chain::verif::set_gate(None);
+    r
 }
+
+static GATE_ON: std::sync::atomic::AtomicBool = std::sync::atomic::AtomicBool::new(false);
 
 /// Deliver `seq` (indexes into m.blocks) to a fresh node and judge every quiescent point.
 #[allow(clippy::too_many_arguments)]
@@ -147,6 +163,29 @@ fn run_scenario(ctx: &Ctx, cons: &ckb_chain_spec::consensus::Consensus, m: &Mate
     let node = Node::boot(&dir, &NodeOpts::new(cons.clone()))?;
     node.wait_startup()?;
     let genesis_td = td(&node);
+    if GATE_ON.load(std::sync::atomic::Ordering::SeqCst) {
+        // the service thread waits here until the verifier is done with the leader (if the leader
+        // is a stored block that has no verdict yet)
+        let shared = node.shared.clone();
+        ckb_chain::verif::set_gate(Some(Box::new(move |_point, leader| {
+            use ckb_store::ChainStore;
+            let t = std::time::Instant::now();
+            while t.elapsed() < std::time::Duration::from_millis(200) {
+                let store = shared.store();
+                let stored = store.get_block_header(leader).is_some();
+                // the verifier is done with a block once its ext row exists (side-branch blocks get one
+                // without a verdict)
+                let verdict = store.get_block_ext(leader).is_some();
+                let invalid = shared.get_block_status(leader) == ckb_shared::block_status::BlockStatus::BLOCK_INVALID;
+                if !stored || verdict || invalid {
+                    // give the verifier the few microseconds between its commit and its bookkeeping
+                    std::thread::sleep(std::time::Duration::from_millis(2));
+                    return;
+                }
+                std::thread::sleep(std::time::Duration::from_micros(200));
+            }
+        })));
+    }
 
     // reference bookkeeping
     let by_hash: HashMap<packed::Byte32, usize> = m.blocks.iter().enumerate().map(|(i, b)| (b.hash(), i)).collect();
